@@ -501,6 +501,39 @@ def run_malformed(case, rec):
             rec.fail("valid-document-wrong-tree", {"got": got, "exp": exp})
 
 
+def run_mutated(case, rec):
+    """Byte-level damage to a valid document: load() must either raise or
+    return a tree that satisfies the C01-C03 predicates - never a corrupted tree."""
+    from vlib.invariants import all_invariants
+
+    prof = serial.Profile("str")
+    text = encode_document(prof, case["spec"], {"indent": case.get("indent")})
+    for kind, a, b, ch in case["edits"]:
+        if not text:
+            break
+        i = a % len(text)
+        j = min(len(text), i + 1 + b % 6)
+        if kind == "del":
+            text = text[:i] + text[j:]
+        elif kind == "dup":
+            text = text[:j] + text[i:j] + text[j:]
+        elif kind == "rep":
+            text = text[:i] + ch + text[i + 1 :]
+        else:
+            text = text[:i] + ch + text[i:]
+    rec.evals += 1
+    try:
+        t = Tree.load(io.StringIO(text), mapper=serial.str_mapper)
+    except Exception:  # noqa: BLE001
+        rec.cls("rejected")
+        return
+    rec.cls("loaded")
+    rec.nt(True)
+    inv = all_invariants(t)
+    if inv:
+        rec.fail(f"mutated-document-loaded-into-corrupt-tree:{inv[0][0]}", {"text": text[:400], "detail": inv[0][1]})
+
+
 # ==================================================================================
 @st.composite
 def writer_cases(draw, tier):
@@ -584,7 +617,16 @@ def malformed_cases(draw, tier):
             "loadable": True, "expect": ["A", "a1", "B"]}
 
 
+@st.composite
+def mutated_cases(draw, tier):
+    spec = draw(serial.tree_spec("str", max_nodes=8))
+    edit = st.tuples(st.sampled_from(["del", "dup", "rep", "ins"]), st.integers(0, 2000), st.integers(0, 20),
+                     st.sampled_from(list('0123456789[]{},:"-ax \\')))
+    return {"spec": spec, "indent": draw(st.sampled_from([None, 1])), "edits": [list(e) for e in draw(st.lists(edit, min_size=1, max_size=4))]}
+
+
 PARTS = [
+    Part("mutated-documents", run_mutated, strategy=lambda tier: mutated_cases(tier), n={"quick": 500, "thorough": 40000}),
     Part("writer", run_writer, strategy=lambda tier: writer_cases(tier), n={"quick": 500, "thorough": 40000}),
     Part("reader", run_reader, strategy=lambda tier: reader_cases(tier), n={"quick": 500, "thorough": 40000}),
     Part("guide-docs", run_guide, enum=guide_cases),
